@@ -643,16 +643,32 @@ impl<'a> Reader<'a> {
                             return Err(ReadError::NotStrict("indefinite string"));
                         }
                         let mut acc = Vec::new();
+                        // (the CBOR library under test also takes an indefinite-length chunk inside an
+                        // indefinite-length string, to any depth: the lenient reader follows it)
+                        let mut open = 1usize;
                         loop {
                             if self.data.get(self.pos) == Some(&0xff) {
                                 self.pos += 1;
-                                break;
+                                open -= 1;
+                                if open == 0 {
+                                    break;
+                                }
+                                continue;
                             }
                             let (m2, _mi, a2) = self.head()?;
                             if m2 != major {
                                 return Err(ReadError::Malformed("bad chunk"));
                             }
-                            let n = a2.ok_or(ReadError::Malformed("nested indefinite chunk"))?;
+                            let n = match a2 {
+                                Some(n) => n,
+                                None => {
+                                    open += 1;
+                                    if open > 1000 {
+                                        return Err(ReadError::Malformed("chunk nesting"));
+                                    }
+                                    continue;
+                                }
+                            };
                             let n = usize::try_from(n).map_err(|_| ReadError::Eof)?;
                             let chunk = self.take(n)?;
                             if major == 3 && std::str::from_utf8(chunk).is_err() {
